@@ -37,6 +37,9 @@ import (
 func init() {
 	register(&stream{name: "c15.args", gen: genC15Args, run: runC15Args})
 	register(&stream{name: "c15.scan", gen: genC15Scan, run: runC15Scan})
+	// c15.ops: the same run as c15.args on templates WITH operators (the Lean reader model has none, so
+	// there is no model output for this stream: the oracle is placeholder-vs-literal on the real code)
+	register(&stream{name: "c15.ops", gen: genC15Ops, run: func(p string) string { return runC15ArgsParen(p, true) }})
 }
 
 type c15Interp struct {
@@ -302,7 +305,11 @@ func c15SplitTop(s string) []string {
 // ---------------------------------------------------------------------------------------------
 // c15.args
 
-func runC15Args(payload string) string {
+func runC15Args(payload string) string { return runC15ArgsParen(payload, false) }
+
+// runC15ArgsParen: paren = write every literal in parentheses (needed in operator contexts, where an atom that
+// is an operator, e.g. "+" under double_quotes=atom, may not be an operand unless parenthesised).
+func runC15ArgsParen(payload string, paren bool) string {
 	parts := strings.Split(payload, " ;; ")
 	flag, toks := strings.TrimSpace(parts[0]), strings.Fields(parts[1])
 	var vals []c15Val
@@ -354,6 +361,11 @@ func runC15Args(payload string) string {
 
 	lit := "n/a"
 	if allLit {
+		if paren {
+			for j := range lits {
+				lits[j] = "( " + lits[j] + " )"
+			}
+		}
 		p := engine.NewParser(&ci.i.VM, strings.NewReader("grab("+c15Text(toks, lits)+") ."))
 		t, err := p.Term()
 		if err != nil {
@@ -900,4 +912,66 @@ func c15ScanFor(r *rand.Rand, d string) string {
 	default: // any
 		return c15ScanTerm(r, 2)
 	}
+}
+
+// ---------------------------------------------------------------------------------------------
+// c15.ops: templates with operators (every operator term is parenthesised, so priorities never matter)
+
+var c15InfixOps = []string{"=", "+", "-", "*", "/", ":-", "->", ";", ",", "=..", "is", "<", "@<", "**", "^", "mod", "//", "\\=", "==", "-->", ">=", ":"}
+
+func c15RandOpTemplate(r *rand.Rand, depth int, nph *int) []string {
+	k := r.Intn(10)
+	if depth <= 0 {
+		k = r.Intn(5)
+	}
+	switch {
+	case k < 3:
+		*nph++
+		return []string{"n:?"}
+	case k == 3:
+		return []string{"n:" + pick(r, []string{"a", "foo", "[]"})}
+	case k == 4:
+		return []string{"i:" + strconv.Itoa(r.Intn(100))}
+	case k < 8:
+		op := pick(r, c15InfixOps)
+		tok := "n:" + encName(op)
+		if op == "," {
+			tok = ","
+		}
+		out := []string{"(("}
+		out = append(out, c15RandOpTemplate(r, depth-1, nph)...)
+		out = append(out, tok)
+		out = append(out, c15RandOpTemplate(r, depth-1, nph)...)
+		return append(out, ")")
+	case k == 8:
+		out := []string{"((", "n:" + encName("\\+")}
+		out = append(out, c15RandOpTemplate(r, depth-1, nph)...)
+		return append(out, ")")
+	default:
+		out := []string{"n:" + pick(r, []string{"f", "g"}), "("}
+		out = append(out, c15RandOpTemplate(r, depth-1, nph)...)
+		if r.Intn(2) == 0 {
+			out = append(out, ",")
+			out = append(out, c15RandOpTemplate(r, depth-1, nph)...)
+		}
+		return append(out, ")")
+	}
+}
+
+func genC15Ops(r *rand.Rand, n int, tier string) []string {
+	var out []string
+	flags := []string{"chars", "codes", "atom"}
+	for i := 0; i < n; i++ {
+		nph := 0
+		toks := c15RandOpTemplate(r, 3, &nph)
+		for try := 0; nph == 0 && try < 3; try++ {
+			toks = c15RandOpTemplate(r, 3, &nph)
+		}
+		vals := make([]string, nph)
+		for j := range vals {
+			vals[j] = c15RandVal(r, true)
+		}
+		out = append(out, pick(r, flags)+" ;; "+strings.Join(toks, " ")+" ;; "+strings.Join(vals, " "))
+	}
+	return out
 }
